@@ -486,6 +486,19 @@ func (p *Prog) load(u *ssa.UnOp, onPath map[ssa.Value]bool, depth int) *Expr {
 		}
 		return &Expr{Op: "deref", Args: []*Expr{inner}, Val: u}
 	}
+	// a struct variable written field by field and read whole: the value is made
+	// of those fields (not the zero value no whole store has replaced)
+	if _, isStruct := root.Type().Underlying().(*types.Pointer).Elem().Underlying().(*types.Struct); isStruct && root == u.X {
+		for _, ref := range *root.Referrers() {
+			if fa, ok := ref.(*ssa.FieldAddr); ok {
+				for _, r2 := range *fa.Referrers() {
+					if st, ok := r2.(*ssa.Store); ok && st.Addr == ssa.Value(fa) {
+						return &Expr{Op: "new", Name: p.shorten(types.TypeString(deref(root.Type()), nil)), Val: u, Args: []*Expr{{Op: "const", Name: "value"}}}
+					}
+				}
+			}
+		}
+	}
 	return p.cellValue(root, u, u, onPath, depth)
 }
 
@@ -965,6 +978,11 @@ func structFieldValues(x ssa.Value, f int, depth int) []ssa.Value {
 	}
 	return nil
 }
+
+// StructFieldValues: what field f of the struct value x can hold (x a value
+// built by a composite literal, possibly through φ-nodes and whole-value
+// stores), or nil when that is not known.
+func StructFieldValues(x ssa.Value, f int) []ssa.Value { return structFieldValues(x, f, 0) }
 
 // structFieldOfLocal: what field f of local struct variable al can hold when
 // instruction at reads it.
